@@ -87,6 +87,13 @@ CLAIMED["C04"] = dict(
    ref="DESIGN.md §4 C04")
 
 
+CLAIMED["C06"] = dict(
+   text="Decides the refinement rule structurally for all durations and all subsets of the fixed-ratio units week / day / hour / minute / second: in precalc the total is made non-negative, the unit blocks come in strictly decreasing unit order, each divides and reduces by the same constant and the seconds slot receives the rest, so the printed components recombine to the total truncated toward zero; an interval analysis partitioned by the four request flags proves, for each of the 16 flag combinations, every refined component inside [0, next-coarser-requested/own - 1] and the coarsest non-negative; sibling agreement ties the constants to the specifiers: the specifier that sets a flag (determine_durfmt) prints the field (__strfdtdur) that the block guarded by that flag fills (precalc), with the number of seconds of that specifier's unit; the print loop never writes the precomputed components (each specifier may occur repeatedly) and exactly one minus sign is written, before the loop, from the sign of the total; every product of a day count with 86400 or 604800 in ddiff and dt-core is computed in 64 bits.",
+   note="That dt_dtdiff delivers the true difference as days + seconds, and the month / year / quarter split (not fixed ratios) are not decided here. The leap second correction is attributed to the seconds slot only, so 'seconds < 60' is not claimed.",
+   technique="static analysis: structural decoding of the unit cascade, trace-partitioned interval abstract interpretation, sibling agreement across three switch tables, write-set analysis, type-width rule on products",
+   ref="DESIGN.md §4 C06")
+
+
 def main():
     props = [json.loads(l)["id"] for l in open(os.path.join(HERE, "properties.jsonl"))]
     checks = []
